@@ -140,9 +140,17 @@ impl RelayMap {
 
     /// Extends this `RelayMap` with another one.
     pub fn extend(&self, other: &RelayMap) {
-        let mut a = self.relays.write().expect("poisoned");
-        let b = other.relays.read().expect("poisoned");
-        a.extend(b.iter().map(|(a, b)| (a.clone(), b.clone())));
+        // Snapshot `other` before locking `self`: `other` may be a clone of `self` and share
+        // its lock, and holding both locks at once could also deadlock against a concurrent
+        // `other.extend(self)`.
+        let other: Vec<_> = other
+            .relays
+            .read()
+            .expect("poisoned")
+            .iter()
+            .map(|(url, config)| (url.clone(), config.clone()))
+            .collect();
+        self.relays.write().expect("poisoned").extend(other);
     }
 
     /// Sets an authorization token for all relays configured in this relay map.
